@@ -1,10 +1,12 @@
 //! SIM-B: artifact store simulation (DESIGN.md section 6).
+mod c17;
 mod c23;
 mod child;
 mod fsseam;
 mod gens;
 mod loaders;
 mod sandbox;
+mod specials;
 
 use c23::{Eval, Init, PublishRun, Scenario};
 use child::{args_of, ChildSpec};
@@ -162,7 +164,7 @@ fn check_c23(seed: u64, tier: Tier, replay: Option<String>) -> i32 {
         // pairs: the first fault's errno set is reduced to the kinds the code branches on (plus EIO)
         let first_ok = match &f0.kind {
             FaultKind::Errno { errno } => c23::PAIR_ERRNOS.contains(errno) || !quick,
-            FaultKind::ShortWrite => false,
+            FaultKind::ShortWrite | FaultKind::ShortRead => false,
             FaultKind::Crash => false,
         };
         if !first_ok {
@@ -351,6 +353,297 @@ fn check_c23(seed: u64, tier: Tier, replay: Option<String>) -> i32 {
     exit
 }
 
+
+#[derive(Serialize, Deserialize)]
+struct LoadReplayFile {
+    property: String,
+    sim: String,
+    seed: u64,
+    class: String,
+    detail: String,
+    case: c17::LoadCase,
+}
+
+fn run_load_cases(refs: &c17::Refs, cases: &[c17::LoadCase], tag: &str, budget_s: u64, leaf_path: &str, pb_path: &str) -> Vec<(usize, c17::LoadEval)> {
+    par_map(cases, tag, budget_s, |sb, c| c17::run_load(sb, refs, c, &[("leaf_proof", json!(leaf_path)), ("inner_proof", json!(pb_path))]))
+}
+
+struct LoadAcc {
+    evals: u64,
+    probes: Counters,
+    fired: Counters,
+    states: HashSet<u64>,
+    nontrivial: HashSet<u64>,
+    first: Option<(c17::LoadCase, String, String)>,
+    samples: Vec<serde_json::Value>,
+    abnormal: u64,
+}
+
+impl LoadAcc {
+    fn new() -> Self {
+        LoadAcc { evals: 0, probes: Counters::default(), fired: Counters::default(), states: HashSet::new(), nontrivial: HashSet::new(), first: None, samples: vec![], abnormal: 0 }
+    }
+    fn add(&mut self, case: &c17::LoadCase, ev: &c17::LoadEval, prefix_ok: &dyn Fn(&str) -> bool) {
+        self.evals += 1;
+        self.probes.merge(&ev.probes);
+        self.fired.merge(&ev.faults_fired);
+        self.states.insert(ev.state);
+        if !case.faults.is_empty() || !case.io_plan.is_empty() {
+            self.nontrivial.insert(qpz_core::rng::hash_str(&serde_json::to_string(case).unwrap()));
+        }
+        if matches!(ev.kind.as_str(), "panic" | "died") {
+            self.abnormal += 1;
+        }
+        if self.first.is_none() {
+            if let Some((c, d)) = ev.findings.iter().find(|(c, _)| prefix_ok(c)) {
+                self.first = Some((case.clone(), c.clone(), d.clone()));
+            }
+        }
+    }
+}
+
+fn write_specials(refs: &c17::Refs) -> (String, String) {
+    let dir = sandbox::session_root().join("specials");
+    std::fs::create_dir_all(&dir).unwrap();
+    let leaf = dir.join("real_leaf.bin");
+    std::fs::write(&leaf, &refs.specials["real_leaf"]).unwrap();
+    let pb = dir.join("real_pb_n1.bin");
+    if let Some(b) = refs.specials.get("real_pb_n1") {
+        std::fs::write(&pb, b).unwrap();
+    }
+    (leaf.to_string_lossy().into_owned(), pb.to_string_lossy().into_owned())
+}
+
+fn finish_load_check(property: &str, tier: Tier, seed: u64, t0: u64, acc: LoadAcc, refs: &c17::Refs, rule: &str, exhaustive: bool, extra_in: serde_json::Map<String, serde_json::Value>, leaf_path: &str, pb_path: &str) -> i32 {
+    let wall = (qpz_core::real_now_ns() - t0) as f64 / 1e9;
+    let mut exit = EXIT_OK;
+    let mut violations = 0;
+    let mut replay_path = String::new();
+    if let Some((case, class, detail)) = acc.first.clone() {
+        violations = 1;
+        // minimise: drop storage faults / io faults while the same class persists
+        let mut best = case.clone();
+        let mut sb = Sandbox::new("min");
+        let mut fails = |c: &c17::LoadCase| c17::run_load(&mut sb, refs, c, &[("leaf_proof", json!(leaf_path)), ("inner_proof", json!(pb_path))]).findings.iter().any(|(k, _)| *k == class);
+        loop {
+            let mut improved = false;
+            for i in 0..best.faults.len() {
+                let mut c = best.clone();
+                c.faults.remove(i);
+                if fails(&c) {
+                    best = c;
+                    improved = true;
+                    break;
+                }
+            }
+            if !improved && !best.io_plan.is_empty() {
+                let mut c = best.clone();
+                c.io_plan.clear();
+                if fails(&c) {
+                    best = c;
+                    improved = true;
+                }
+            }
+            if !improved {
+                break;
+            }
+        }
+        let case = if fails(&best) { best } else { case };
+        let rf = LoadReplayFile { property: property.into(), sim: "store".into(), seed, class: class.clone(), detail: detail.clone(), case };
+        replay_path = format!("{}/{property}-{}.json", qpz_core::replay_dir(), qpz_core::rng::hash_str(&serde_json::to_string(&rf.case).unwrap()));
+        std::fs::write(&replay_path, serde_json::to_string_pretty(&rf).unwrap()).unwrap();
+        println!("violation class={class}: {detail}");
+        println!("VIOLATION property={property} replay={replay_path}");
+        exit = EXIT_VIOLATION;
+    }
+    let mut extra = extra_in;
+    extra.insert("consumer_boots".into(), json!(acc.evals));
+    extra.insert("runs_per_hour".into(), json!((acc.evals as f64 / wall * 3600.0).round()));
+    extra.insert("faults_fired".into(), acc.fired.to_json());
+    extra.insert("reach_probes".into(), acc.probes.to_json());
+    extra.insert("abnormal_terminations_counted_not_alarmed".into(), json!(acc.abnormal));
+    extra.insert("distinct_loader_outcome_fault_classes".into(), json!(acc.states.len()));
+    extra.insert("simulated_time".into(), json!("not applicable: loaders have no timers; progress is measured in consumer boots and system calls"));
+    extra.insert("components".into(), json!({
+        "real": ["every loader/constructor named in the property (child process per boot)", "canonical circuit rebuilds inside the loaders", "plonky2 (de)serialisation and verification", "std::fs on a tmpfs directory"],
+        "stub": [],
+        "simulated": ["storage faults at rest (bit flip, truncation, extension, zero fill, torn/lost/misdirected write, missing, sparse oversize, poison prover files, config variants)", "I/O faults at load time (errno, EINTR, short read) by libc interposition"]
+    }));
+    if !replay_path.is_empty() {
+        extra.insert("replay".into(), json!(replay_path));
+    }
+    let ev = Evidence {
+        property_id: property.into(),
+        tier: tier.as_str().into(),
+        seed,
+        level: "fault_enumeration".into(),
+        evaluations: acc.evals,
+        distinct_nontrivial: acc.nontrivial.len() as u64,
+        rule: rule.into(),
+        samples: acc.samples.clone(),
+        exhaustive: Some(exhaustive),
+        extra,
+        assumptions: vec![
+            "reference generations (what 'canonical for this shape' means) are produced by the real builder from the working tree at the start of the check".into(),
+            "abnormal termination of a loader (panic, abort) is not acceptance and is counted, not alarmed".into(),
+            "symlinks, FIFOs and concurrent local writers are excluded (THREAT_MODEL.md)".into(),
+        ],
+        wall_s: wall,
+        violations,
+    };
+    ev.write(&qpz_core::evidence_path(property)).unwrap_or_else(|e| harness_error(&format!("cannot write evidence: {e}")));
+    println!("{property}: boots={} abnormal={} classes={} wall={wall:.1}s", acc.evals, acc.abnormal, acc.states.len());
+    exit
+}
+
+fn replay_load(property: &str, path: &str, refs: &c17::Refs, leaf_path: &str, pb_path: &str, prefix_ok: &dyn Fn(&str) -> bool) -> i32 {
+    let rf: LoadReplayFile = serde_json::from_str(&std::fs::read_to_string(path).unwrap_or_else(|e| harness_error(&format!("cannot read {path}: {e}")))).unwrap_or_else(|e| harness_error(&format!("bad replay file: {e}")));
+    let mut sb = Sandbox::new("replay");
+    let ev = c17::run_load(&mut sb, refs, &rf.case, &[("leaf_proof", json!(leaf_path)), ("inner_proof", json!(pb_path))]);
+    println!("  {} reported {} {}", rf.case.loader, ev.kind, ev.error);
+    for (c, d) in &ev.findings {
+        println!("replayed: class={c} {d}");
+    }
+    if ev.findings.iter().any(|(c, _)| prefix_ok(c)) {
+        println!("VIOLATION property={property} replay={path}");
+        return EXIT_VIOLATION;
+    }
+    println!("replay: no violation on this tree");
+    EXIT_OK
+}
+
+fn c17_class(c: &str) -> bool {
+    matches!(c, "load:non-canonical-artifact-accepted" | "load:oversize-file-read" | "load:oversize-file-accepted" | "load:prover-artifact-read" | "load:accepted-without-config")
+}
+fn c16_class(c: &str) -> bool {
+    matches!(c, "load:bad-template-accepted" | "load:rejecting-stage-wrote-output")
+}
+
+fn check_c17(seed: u64, tier: Tier, replay: Option<String>) -> i32 {
+    let t0 = qpz_core::real_now_ns();
+    let mut refs = c17::Refs::new(gens::build_gens(SHAPES));
+    specials::build_specials(&mut refs, seed, true);
+    let (leaf_path, pb_path) = write_specials(&refs);
+    if let Some(p) = replay {
+        return replay_load("C17", &p, &refs, &leaf_path, &pb_path, &c17_class);
+    }
+    println!("references built at {:.1}s", (qpz_core::real_now_ns() - t0) as f64 / 1e9);
+    let quick = tier == Tier::Quick;
+    let mut acc = LoadAcc::new();
+    // (a) enumeration: loader x file x fault kind (quick: a seeded sample that keeps the per-loader essentials)
+    let all = c17::c17_enumeration(&refs);
+    let total_enum = all.len();
+    let mut rng = Rng::new(mix(seed, 0x1717));
+    let cases: Vec<c17::LoadCase> = if quick {
+        all.into_iter().filter(|c| c.faults.is_empty() || matches!(c.faults[0], c17::SFault::ExtraProver { .. }) || c.loader == "load_leaf_verifier" || c.loader == "load_config" || rng.chance(1, 6)).collect()
+    } else {
+        all
+    };
+    // L-noprover through commit and prove as well
+    let mut cases = cases;
+    cases.push(c17::LoadCase { gen: 0, faults: c17::prover_poison(), loader: "private_commit_prove".into(), io_plan: vec![], fseed: 1 });
+    cases.push(c17::LoadCase { gen: 0, faults: c17::prover_poison(), loader: "public_commit_prove".into(), io_plan: vec![], fseed: 1 });
+    cases.push(c17::LoadCase { gen: 0, faults: c17::prover_poison(), loader: "load_leaf_verifier_bytes".into(), io_plan: vec![], fseed: 1 });
+    let res = run_load_cases(&refs, &cases, "c17e", 0, &leaf_path, &pb_path);
+    for (i, ev) in &res {
+        // L-sane: with no fault the loader must accept (precondition, not a violation of C17)
+        if cases[*i].faults.iter().all(|f| matches!(f, c17::SFault::ExtraProver { .. })) && cases[*i].io_plan.is_empty() && !ev.accepted {
+            harness_error(&format!("{} rejected the unfaulted reference generation: {} {}", cases[*i].loader, ev.kind, ev.error));
+        }
+        acc.add(&cases[*i], ev, &c17_class);
+    }
+    let n_enum = res.len();
+    acc.samples.push(json!({"enumerated_case": cases.iter().find(|c| !c.faults.is_empty() && c.loader == "load_aggregator")}));
+    println!("enumeration ({n_enum} of {total_enum}) done at {:.1}s", (qpz_core::real_now_ns() - t0) as f64 / 1e9);
+    // (b) seeded exploration
+    let n_rand: u64 = if quick { 60 } else { 100_000 };
+    let budget = if quick { 0 } else { qpz_core::budget_s(600) };
+    let seeds: Vec<u64> = (0..n_rand).map(|i| mix(seed, 0x1700_0000 + i)).collect();
+    let rres = par_map(&seeds, "c17r", budget, |sb, s| {
+        let mut r = Rng::new(*s);
+        let case = c17::c17_random_case(&refs, &mut r);
+        let ev = c17::run_load(sb, &refs, &case, &[("leaf_proof", json!(leaf_path)), ("inner_proof", json!(pb_path))]);
+        (case, ev)
+    });
+    for (_, (case, ev)) in &rres {
+        acc.add(case, ev, &c17_class);
+    }
+    if let Some((_, (case, ev))) = rres.iter().find(|(_, (c, _))| c.faults.len() >= 2) {
+        acc.samples.push(json!({"seeded_case": case, "reported": ev.kind}));
+    }
+    let mut extra = serde_json::Map::new();
+    extra.insert("enumeration_size".into(), json!(total_enum));
+    extra.insert("enumeration_executed".into(), json!(n_enum));
+    extra.insert("seeded_directories".into(), json!(rres.len()));
+    finish_load_check("C17", tier, seed, t0, acc, &refs, "one evaluation = one consumer boot (child process) from a bins directory with storage faults applied, judged by L-pin / L-cap / L-noprover on what the loader read (from the system-call trace) and returned; distinct = distinct (generation, fault list, loader, I/O plan); non-trivial = at least one fault present", !quick, extra, &leaf_path, &pb_path)
+}
+
+fn check_c16(seed: u64, tier: Tier, replay: Option<String>) -> i32 {
+    let t0 = qpz_core::real_now_ns();
+    let mut refs = c17::Refs::new(gens::build_gens(SHAPES));
+    specials::build_specials(&mut refs, seed, true);
+    let (leaf_path, pb_path) = write_specials(&refs);
+    if let Some(p) = replay {
+        return replay_load("C16", &p, &refs, &leaf_path, &pb_path, &c16_class);
+    }
+    println!("references built at {:.1}s", (qpz_core::real_now_ns() - t0) as f64 / 1e9);
+    let quick = tier == Tier::Quick;
+    let mut acc = LoadAcc::new();
+    let mut rng = Rng::new(mix(seed, 0x1616));
+    let mut cases: Vec<c17::LoadCase> = vec![];
+    let shapes: Vec<usize> = if quick { vec![0] } else { vec![0, 1, 2] };
+    let extra_pos = if quick { 0 } else { 12 };
+    for gi in shapes {
+        let g = &refs.gens[gi];
+        let other = if gi == 1 { 0 } else { 1 };
+        // quick: per entry point every valid-but-wrong proof plus a seeded third of the other
+        // template faults (a different third for another VERIF_SEED); thorough: all of them
+        let mut pick = |f: &c17::SFault, rng: &mut Rng| !quick || matches!(f, c17::SFault::Special { .. }) || rng.chance(1, 3);
+        for ep in c17::LEAF_TEMPLATE_ENTRY_POINTS {
+            cases.push(c17::LoadCase { gen: gi, faults: vec![], loader: ep.to_string(), io_plan: vec![], fseed: 1 });
+            for f in c17::leaf_template_faults(g.files["dummy_proof.bin"].len() as u64, &mut rng, extra_pos) {
+                if pick(&f, &mut rng) {
+                    cases.push(c17::LoadCase { gen: gi, faults: vec![f], loader: ep.to_string(), io_plan: vec![], fseed: 3 });
+                }
+            }
+        }
+        for ep in c17::PB_TEMPLATE_ENTRY_POINTS {
+            cases.push(c17::LoadCase { gen: gi, faults: vec![], loader: ep.to_string(), io_plan: vec![], fseed: 1 });
+            for f in c17::pb_template_faults(g.n, g.files["dummy_private_batch_proof.bin"].len() as u64, other, &mut rng, extra_pos) {
+                if pick(&f, &mut rng) {
+                    cases.push(c17::LoadCase { gen: gi, faults: vec![f], loader: ep.to_string(), io_plan: vec![], fseed: 3 });
+                }
+            }
+        }
+    }
+    let budget = if quick { 0 } else { qpz_core::budget_s(900) };
+    let res = run_load_cases(&refs, &cases, "c16", budget, &leaf_path, &pb_path);
+    let mut rejected = 0u64;
+    let mut accepted_ok_predicate = 0u64;
+    for (i, ev) in &res {
+        if cases[*i].faults.is_empty() && !ev.accepted {
+            harness_error(&format!("{} rejected the genuine template of the reference generation: {} {}", cases[*i].loader, ev.kind, ev.error));
+        }
+        if !cases[*i].faults.is_empty() {
+            if ev.accepted {
+                accepted_ok_predicate += 1;
+            } else {
+                rejected += 1;
+            }
+        }
+        acc.add(&cases[*i], ev, &c16_class);
+    }
+    acc.samples.push(json!({"template_fault_case": cases.iter().find(|c| matches!(c.faults.first(), Some(c17::SFault::EditPi { .. })))}));
+    acc.samples.push(json!({"template_fault_case": cases.iter().find(|c| matches!(c.faults.first(), Some(c17::SFault::Special { .. })))}));
+    let mut extra = serde_json::Map::new();
+    extra.insert("entry_points".into(), json!(c17::LEAF_TEMPLATE_ENTRY_POINTS.iter().chain(c17::PB_TEMPLATE_ENTRY_POINTS.iter()).collect::<Vec<_>>()));
+    extra.insert("faulted_templates_rejected".into(), json!(rejected));
+    extra.insert("faulted_templates_accepted_while_satisfying_the_predicate".into(), json!(accepted_ok_predicate));
+    extra.insert("cases_planned".into(), json!(cases.len()));
+    let complete = res.len() == cases.len() && !quick;
+    finish_load_check("C16", tier, seed, t0, acc, &refs, "one evaluation = one entry point (constructor, loader, aggregator init or build stage; child process) given one faulted padding template; the template is judged by the harness's own predicate (deserialises, sentinel at the documented offsets, accepted by the canonical verifier) and any template failing it must be refused; distinct = distinct (shape, entry point, template fault); non-trivial = a template fault is present", complete, extra, &leaf_path, &pb_path)
+}
+
 fn main() {
     let args: Vec<String> = std::env::args().collect();
     if args.get(1).map(|s| s.as_str()) == Some("child") {
@@ -375,6 +668,8 @@ fn main() {
     seam_selftest();
     let rc = match property.as_str() {
         "C23" => check_c23(seed, tier, replay),
+        "C17" => check_c17(seed, tier, replay),
+        "C16" => check_c16(seed, tier, replay),
         other => harness_error(&format!("sim-store does not serve {other}")),
     };
     let _ = std::fs::remove_dir_all(sandbox::session_root());
